@@ -44,6 +44,30 @@ lazy_static! {
     };
 }
 
+/// Length of the incomplete utf-8 sequence at the end of data (0 if data ends on a character boundary)
+fn incomplete_utf8_suffix_len(data: &[u8]) -> usize {
+    for (index, byte) in data.iter().rev().take(4).enumerate() {
+        if byte & 0b1100_0000 == 0b1000_0000 {
+            // continuation byte, look for the leading byte
+            continue;
+        }
+
+        let expected = if byte & 0b1110_0000 == 0b1100_0000 {
+            2
+        } else if byte & 0b1111_0000 == 0b1110_0000 {
+            3
+        } else if byte & 0b1111_1000 == 0b1111_0000 {
+            4
+        } else {
+            1
+        };
+
+        return if index + 1 < expected { index + 1 } else { 0 };
+    }
+
+    0
+}
+
 impl HtmlFilterBodyAction {
     pub fn new(visitor: HtmlBodyVisitor) -> Self {
         Self {
@@ -55,10 +79,21 @@ impl HtmlFilterBodyAction {
         }
     }
 
-    pub fn filter(&mut self, input: Vec<u8>, mut unit_trace: Option<&mut UnitTrace>) -> Result<Vec<u8>> {
+    pub fn filter(&mut self, input: Vec<u8>, unit_trace: Option<&mut UnitTrace>) -> Result<Vec<u8>> {
         let mut data = self.last_buffer.clone();
         data.extend(input);
 
+        // A chunk can end in the middle of a multi-byte character: keep the incomplete
+        // sequence for the next chunk instead of failing on invalid utf-8
+        let incomplete = data.split_off(data.len() - incomplete_utf8_suffix_len(data.as_slice()));
+        let filtered = self.filter_data(data, unit_trace)?;
+
+        self.last_buffer.extend(incomplete);
+
+        Ok(filtered)
+    }
+
+    fn filter_data(&mut self, data: Vec<u8>, mut unit_trace: Option<&mut UnitTrace>) -> Result<Vec<u8>> {
         let mut tokenizer = html::Tokenizer::new(data);
         let mut to_return = "".to_string();
 
